@@ -584,6 +584,87 @@ Definition same_bag (a b : list cmd) : bool :=
 
 Definition is_out (c : cmd) : bool := match c with COut _ _ => true | _ => false end.
 
+(* ---- clauses that hold WITHOUT any excuse (also on the histories of the recorded findings) *)
+
+(* "then to the focused widget".  The widget that holds the focus is the one that received
+   the last FocusIn delivery ([focus_after f d]: the focus after the entries [d] when [f] had
+   it before).  The target call of a routed event [ev] must go to the widget that holds the
+   focus when the target phase starts, i.e. after the deliveries made during the capture
+   phase ([key_target]), and the calls are routed capture-target-bubble along the stored
+   focus path [pth] with that target. *)
+Definition is_focusin_entry (e : entry) : bool :=
+  match e_ev e with EFocusIn => phase_eqb (e_ph e) Target | _ => false end.
+
+Definition focus_after (f : wid) (d : list entry) : wid :=
+  fold_left (fun f e => if is_focusin_entry e then e_wid e else f) d f.
+
+Definition is_target_of (ev : event) (e : entry) : bool :=
+  event_eqb (e_ev e) ev && phase_eqb (e_ph e) Target.
+
+Fixpoint before_target (ev : event) (d : list entry) : list entry :=
+  match d with
+  | [] => []
+  | e :: d' => if is_target_of ev e then [] else e :: before_target ev d'
+  end.
+
+Definition key_target (f0 : wid) (ev : event) (d : list entry) : wid :=
+  focus_after f0 (before_target ev d).
+
+Definition key_route_obs (capt : wid -> bool) (pth : list wid) (f0 : wid) (ev : event) (d : list entry) : bool :=
+  routed_b (S (length d)) ev (route_seq capt pth (key_target f0 ev d)) d.
+
+(* "the deepest widget containing the point being the target".  The routing calls of a
+   mouse event ([mouse_rd]: the entries of the step without the enter/leave notifications
+   and the focus deliveries those triggered) go capture-target-bubble along the surfaces
+   under the pointer ([pointer_all], pre-order), and the target is the deepest widget of
+   the topmost chain ([pointer_chain]) even when siblings overlap. *)
+Fixpoint drop_focus (l : list entry) : list entry :=
+  match l with e :: l' => if focus_entry e then drop_focus l' else l | [] => [] end.
+
+Definition mouse_rd (d : list entry) : list entry :=
+  drop_focus (filter (fun e => negb (is_hover_ev (e_ev e))) d).
+
+Definition mouse_route_obs (capt : wid -> bool) (frame : tree) (c r : Z) (d : list entry) : bool :=
+  let rd := mouse_rd d in
+  match pointer_all frame c r with
+  | [] => match rd with [] => true | _ => false end
+  | all => routed_b (S (length rd)) (EMouse c r) (route_seq capt all (last (pointer_chain frame c r) 0)) rd
+  end.
+
+(* "mouse-enter and mouse-leave alternate for each widget and are all closed when the pointer
+   or terminal focus leaves": what an observer expects to be hovered.  He keeps the surface
+   tree the mouse handler tests against, the pointer position and the set of widgets under
+   the pointer at the last hit test; [redrawn] = a redraw was pending (the frame case of
+   App.Run does nothing otherwise). *)
+Record hov_st := mkHov { hv_frame : tree; hv_mouse : option (Z * Z); hv_set : list wid }.
+
+Definition hov_at (t : tree) (m : option (Z * Z)) (old : list wid) : list wid :=
+  match m with Some (c, r) => pointer_all t c r | None => old end.
+
+Definition hov_track (redrawn : bool) (h : hov_st) (i : input) : hov_st :=
+  match i with
+  | IMouse c r => mkHov (hv_frame h) (Some (c, r)) (pointer_all (hv_frame h) c r)
+  | ITermFocusOut => mkHov (hv_frame h) None []
+  | PMouseExit => mkHov (hv_frame h) (hv_mouse h) []
+  | PClearMouse => mkHov (hv_frame h) None (hv_set h)
+  | PUpdate t => mkHov (hv_frame h) (hv_mouse h) (hov_at t (hv_mouse h) (hv_set h))
+  | IFrame t =>
+      if redrawn then mkHov (sort_tree t) (hv_mouse h) (hov_at t (hv_mouse h) (hv_set h)) else h
+  | IStart t | PSetLast t => mkHov t (hv_mouse h) (hv_set h)
+  | PRender t => mkHov (sort_tree t) (hv_mouse h) (hv_set h)
+  | _ => h
+  end.
+
+Definition widgets_of (l : list entry) : list wid := nodup Z.eq_dec (map e_wid l).
+
+(* every widget ever called, and every widget expected to be hovered, has alternating
+   notifications that end with MouseEnter exactly when it is in the expected set *)
+Definition hover_obs (excused : wid -> bool) (lg : list entry) (hov : list wid) : bool :=
+  forallb (fun w =>
+             option_eqb Bool.eqb (hover_state false (hover_log w lg)) (Some (existsb (Z.eqb w) hov))
+             || excused w)
+          (widgets_of lg ++ hov).
+
 (* ---------------------------------------------------------------- correspondence: cases *)
 
 Definition call3_eqb (a b : call3) : bool :=
@@ -664,13 +745,14 @@ Definition c15_direct_mismatches (cases : list dcase) : list Z := bad_indices (f
    against, all entries so far, the previous state snapshot. *)
 Record spec_st := mkSpec {
   sp_tree : option tree;     (* last tree passed to updatePath *)
-  sp_frame : tree;           (* mouse handler's frame *)
+  sp_hv : hov_st;            (* mouse handler's frame, pointer, widgets expected to be hovered *)
   sp_log : list entry;
   sp_pre : snap;
   sp_moved : bool;           (* a focus delivery happened since the last updatePath *)
   sp_termfocus : bool;       (* a terminal FocusIn was seen *)
   sp_dup : bool              (* some frame had a widget on two surfaces *)
 }.
+Definition sp_frame (sp : spec_st) : tree := hv_frame (sp_hv sp).
 
 (* attach to each observed call the command it returned: the k-th call gets script[k] *)
 Fixpoint attach (script : list cmd) (k : nat) (l : list call3) : list entry :=
@@ -682,16 +764,26 @@ Fixpoint attach (script : list cmd) (k : nat) (l : list call3) : list entry :=
 Definition focus_in_focusout (d : list entry) : bool :=
   existsb (fun e => event_eqb (e_ev e) EFocusOut && existsb is_focus_cmd (leaves (e_ret e))) d.
 
-Definition widgets_of (l : list entry) : list wid := nodup Z.eq_dec (map e_wid l).
-
-(* strict = true: no finding class is excused *)
-Definition check_step (strict : bool) (capt : wid -> bool) (rt : wid) (sp : spec_st) (i : input) (d : list entry)
-    (outs : list cmd) (post : snap) : bool :=
+(* strict = true: no finding class is excused.  The clauses [key_route_obs], [mouse_route_obs],
+   the [focus_after] equation and [hover_obs] for widgets outside the two hover findings are
+   never excused. *)
+Definition check_step (strict : bool) (capt : wid -> bool) (rt : wid) (sp : spec_st) (hov : list wid) (i : input)
+    (d : list entry) (outs : list cmd) (post : snap) : bool :=
   let pre := sp_pre sp in
   let lg := sp_log sp ++ d in
   let guard (b : bool) := negb strict && b in
+  let routed_ev :=
+    match i with
+    | IEv e => if is_focus_ev e then None else Some e
+    | IStart _ => Some EInit
+    | _ => None
+    end in
   (* routing order *)
   let route_ok :=
+    match routed_ev with
+    | Some e => key_route_obs capt (sn_path pre) (sn_focused pre) e d
+    | None => true
+    end &&
     match i with
     | IEv e =>
         match sp_tree sp with
@@ -705,35 +797,25 @@ Definition check_step (strict : bool) (capt : wid -> bool) (rt : wid) (sp : spec
             end
         end
     | IMouse c r =>
-        let ws := pointer_chain (sp_frame sp) c r in
-        let rd := filter (fun e => negb (is_hover_ev (e_ev e))) d in
-        let rd := (fix drop (l : list entry) := match l with e :: l' => if focus_entry e then drop l' else l | [] => [] end) rd in
-        match ws with
-        | [] => match rd with [] => true | _ => false end
-        | _ => routed_b (S (length rd)) (EMouse c r) (route_seq capt ws (last ws 0)) rd
-        end
-        || guard (negb (Nat.eqb (length (pointer_all (sp_frame sp) c r)) (length ws)))
+        mouse_route_obs capt (sp_frame sp) c r d &&
+        (let ws := pointer_chain (sp_frame sp) c r in
+         let rd := mouse_rd d in
+         match ws with
+         | [] => match rd with [] => true | _ => false end
+         | _ => routed_b (S (length rd)) (EMouse c r) (route_seq capt ws (last ws 0)) rd
+         end
+         || guard (negb (Nat.eqb (length (pointer_all (sp_frame sp) c r)) (length ws))))
     | _ => true
     end in
   (* focus changes *)
   let focus_ok :=
-    option_eqb Z.eqb (focus_chain (sn_focused pre) (focus_log d)) (Some (sn_focused post))
-    || guard (focus_in_focusout d) in
-  (* hover *)
-  let closing :=
-    match i with
-    | ITermFocusOut | PMouseExit => true
-    | IMouse c r => negb (contains_abs 0 0 (sp_frame sp) c r)
-    | _ => false
-    end in
+    (match i with IEv e => is_focus_ev e | _ => false end
+     || (sn_focused post =? focus_after (sn_focused pre) d)) &&
+    (option_eqb Z.eqb (focus_chain (sn_focused pre) (focus_log d)) (Some (sn_focused post))
+     || guard (focus_in_focusout d)) in
+  (* hover: [hov] = the widgets under the pointer at the last hit test (after this step) *)
   let hover_ok :=
-    forallb (fun w =>
-               match hover_state false (hover_log w lg) with
-               | None => false
-               | Some b => negb (closing && b)
-               end
-               || guard (sp_dup sp || (sp_termfocus sp && (w =? rt))))
-            (widgets_of lg) in
+    hover_obs (fun w => guard (sp_dup sp || (sp_termfocus sp && (w =? rt)))) lg hov in
   (* commands *)
   let ls := rets d ++ match i with PCmd c => leaves c | _ => [] end in
   let mono (f : snap -> bool) (p : cmd -> bool) := Bool.eqb (f post) (f pre || existsb p ls) in
@@ -769,14 +851,7 @@ Definition spec_next (sp : spec_st) (i : input) (d : list entry) (post : snap) :
     | IFrame t => if redrawn then (Some (sort_tree t), again t) else (sp_tree sp, moved)
     | _ => (sp_tree sp, moved)
     end in
-  let fr :=
-    match i with
-    | PSetLast t | IStart t => t
-    | PRender t => sort_tree t
-    | IFrame t => if redrawn then sort_tree t else sp_frame sp
-    | _ => sp_frame sp
-    end in
-  mkSpec (fst tr) fr (sp_log sp ++ d) post
+  mkSpec (fst tr) (hov_track redrawn (sp_hv sp) i) (sp_log sp ++ d) post
          (snd tr)
          (sp_termfocus sp || match i with ITermFocusIn => true | _ => false end)
          (sp_dup sp || match tree_of_input i with Some t => negb (nodup_z (ids t)) | None => false end).
@@ -788,14 +863,15 @@ Fixpoint d_check (strict : bool) (script : list cmd) (capt : wid -> bool) (rt : 
   | (i, (oc, oo, os)) :: l' =>
       let d := attach script (length (sp_log sp)) oc in
       (* the frame's tree counts for the duplicate-widget guard from this step on *)
-      let sp0 := mkSpec (sp_tree sp) (sp_frame sp) (sp_log sp) (sp_pre sp) (sp_moved sp)
+      let sp0 := mkSpec (sp_tree sp) (sp_hv sp) (sp_log sp) (sp_pre sp) (sp_moved sp)
                         (sp_termfocus sp || match i with ITermFocusIn => true | _ => false end)
                         (sp_dup sp || match tree_of_input i with Some t => negb (nodup_z (ids t)) | None => false end) in
-      check_step strict capt rt sp0 i d oo os && d_check strict script capt rt (spec_next sp i d os) l'
+      let sp' := spec_next sp i d os in
+      check_step strict capt rt sp0 (hv_set (sp_hv sp')) i d oo os && d_check strict script capt rt sp' l'
   end.
 
 Definition d_spec_init (rt f0 : wid) (p0 : list wid) : spec_st :=
-  mkSpec None (Node (-1) 0 0 []) [] (snap_of (d_init rt f0 p0)) false false false.
+  mkSpec None (mkHov (Node (-1) 0 0 []) None []) [] (snap_of (d_init rt f0 p0)) false false false.
 
 Definition d_case_holds (strict : bool) (c : dcase) : bool :=
   match c with
